@@ -245,6 +245,16 @@ func (ex *Exec) heapKey(named *types.Named, field string) string {
 			ex.c.Trust("libopenapi does not modify the fields of the high-level model objects handed to it")
 			return k
 		}
+		if ex.w.WrittenFields(); strings.HasSuffix(named.Obj().Pkg().Path(), "sebuf/http") && !ex.w.directWritten[k] {
+			// annotation messages (what protoc decoded from the options of a descriptor): read-only data like the descriptors
+			// themselves; the runtime messages of the same package (errors, violations) are built and filled by emitted code
+			switch named.Obj().Name() {
+			case "Error", "ValidationError", "FieldViolation":
+			default:
+				ex.c.Trust("sebuf.http annotation messages (Header, HttpConfig, ...) are read-only option data: no code assigns their fields and libraries they are handed to do not either")
+				return k
+			}
+		}
 		return "~" + k
 	}
 	if named.Obj().Pkg() != nil && ex.w.RepoPaths[named.Obj().Pkg().Path()] && ex.w.WrittenFields()[k] {
